@@ -69,3 +69,51 @@ func ZZ_C01_L2_lock_before_precommit_vote() {
 		zzAssert("L2.no-vote-means-round-interrupt", zzInterrupted == 1)
 	}
 }
+
+// C01 / L6: resets and the lock. A committee-preserving root-chain update in the middle of a height
+// restarts the rounds through the real NewHeight(true): the lock (HighQC, RCBuildHeight) must
+// survive untouched whatever the new root height, committee or old lock look like - a replica that
+// PRECOMMIT-voted a block may be the only reason nobody can commit another one. A real new height,
+// NewHeight() / NewHeight(false), releases it. Either way votes, pacemaker messages and proposals of
+// later rounds are cleared and the replica is back at round 0, ELECTION.
+//
+//zz:harness unwind=60 maxpaths=20000 timebudget=600 replay=model
+//zz:reach L6.kept L6.released
+func ZZ_C01_L6_root_reset_keeps_the_lock() {
+	n := 3
+	vs := zzValSet([]uint64{1, 1, 1})
+	ctl := &zzCtl{valSet: vs, height: zzU64("ctl.height"), rootHeight: zzU64("ctl.rootHeight"), committeeData: &lib.CommitteeData{LastRootHeightUpdated: zzU64("lastRootUpdate")}}
+	var lock *QC
+	if zzBool("hadLock") {
+		lock = zzQC("lock", n)
+	}
+	rc := zzU64("rcBuildHeight")
+	view := zzView("cur")
+	b := &BFT{View: view, ValidatorSet: vs, Controller: ctl, log: zzLog{}, HighQC: lock, RCBuildHeight: rc,
+		Proposals:         ProposalsForHeight{0: {phaseToString(Election): {&Message{}}}, 1: {phaseToString(Propose): {&Message{}}}},
+		Votes:             VotesForHeight{1: {}},
+		PacemakerMessages: PacemakerMessages{"x": &Message{}},
+		PartialQCs:        PartialQCs{},
+	}
+	mode := zzConcrete(zzInt("mode"), 0, 2)
+	switch mode {
+	case 0:
+		b.NewHeight(true)
+	case 1:
+		b.NewHeight(false)
+	case 2:
+		b.NewHeight()
+	}
+	zzAssert("L6.back-to-round-0-election", b.Round == 0 && b.Phase == Election)
+	zzAssert("L6.votes-and-pacemaker-cleared", len(b.Votes) == 0 && len(b.PacemakerMessages) == 0)
+	zzAssert("L6.later-round-proposals-cleared", len(b.Proposals[1]) == 0)
+	zzAssert("L6.view-follows-the-controller", b.Height == ctl.height && b.RootHeight == ctl.rootHeight)
+	if mode == 0 {
+		zzReach("L6.kept")
+		zzAssert("L6.root-reset-keeps-the-lock", b.HighQC == lock && b.RCBuildHeight == rc)
+		zzAssert("L6.round-0-election-candidates-kept", len(b.Proposals[0][phaseToString(Election)]) == 1)
+	} else {
+		zzReach("L6.released")
+		zzAssert("L6.new-height-releases-the-lock", b.HighQC == nil && b.RCBuildHeight == 0)
+	}
+}
